@@ -205,55 +205,73 @@ def load_errors_propagate_rule(ctx, rid):
                                        construct="load-error-swallowed " + norm(c)[:60]), "%s: %s propagates" % (f.qualname, norm(c)[:40]))
                 else:
                     rr.ok("%s: a failure of `%s` propagates to the caller" % (f.qualname, norm(c)[:50]))
-    # the loaded value is validated: returning it is dominated by a test on it
-    g = build_cfg(ld.node)
-    rets = [n for n in g.nodes if n.kind == "stmt" and isinstance(n.ast, ast.Return) and n.ast.value is not None]
-    need(rets, "anchor lost: _load has no return")
-    for rn in rets:
-        rname = names_in(rn.ast.value)
-        tests = [t for t in g.nodes if t.kind == "test" and (names_in(t.ast) & rname) and g.dominates(t.id, rn.id) and t.id != rn.id]
-        good = False
-        for t in tests:
-            for b, l in g.succ[t.id]:
-                if l in ("t", "f"):
-                    reach = g.reachable(start=b)
-                    if g.exit.id not in reach and g.raise_exit.id in reach:
-                        txt = norm(t.ast)
-                        if "None" in txt and "len(" in txt:
-                            good = True
-        if good:
-            # ... and the check holds exactly for None and for empty results (evaluated on representatives)
-            from ..util import IntEval
+    # the loaded value is validated: returning it is dominated by a test on it (in the loader, or in the
+    # helper the loader hands the value to)
+    from ..util import IntEval, callee_func
+
+    def validate(fn, depth=0):
+        g = build_cfg(fn.node)
+        ctx.touch(fn, g)
+        rets = [n for n in g.nodes if n.kind == "stmt" and isinstance(n.ast, ast.Return) and n.ast.value is not None]
+        need(rets, "anchor lost: %s has no return" % fn.qualname)
+        for rn in rets:
+            rv = rn.ast.value
+            if isinstance(rv, ast.Call):
+                cf = callee_func(ctx, fn, rv)
+                if cf is not None and cf.qualname == CROP + ".read_from_disk":
+                    pass
+                elif cf is not None and depth < 2 and any(isinstance(a_, ast.Name) for a_ in rv.args):
+                    # the value goes through a helper: the helper's own returns are what is decided
+                    validate(cf, depth + 1)
+                    continue
+                else:
+                    raise AnalysisError("idiom changed: %s returns `%s`, a call the analysis cannot follow to the None / empty check" % (fn.qualname, norm(rv)[:60]))
+            rname = names_in(rv)
+            tests = [t for t in g.nodes if t.kind == "test" and (names_in(t.ast) & rname) and g.dominates(t.id, rn.id) and t.id != rn.id]
+            good = False
             for t in tests:
-                txt = norm(t.ast)
-                if "None" in txt and "len(" in txt:
-                    rname_ = sorted(rname)[0] if rname else "res"
-                    got = []
-                    for rep in (None, (), (1,), (1, 2)):
-                        def on_call(c_, ev_, st_, rep=rep):
-                            if norm(c_.func) == "len" and len(c_.args) == 1:
-                                if rep is None:
-                                    raise TypeError("len(None)")
-                                return len(ev_.ev(c_.args[0], st_))
-                            return NotImplemented
-                        try:
-                            got.append(bool(IntEval({rname_: rep}, on_call).ev(t.ast, {})))
-                        except TypeError:
-                            got.append("TypeError")
-                        except AnalysisError:
-                            got = None
-                            break
-                    if got is not None and got != [True, True, False, False]:
-                        rr.bad(ctx.finding(rid, ld, t.ast, "the refusal test `%s` answers %s for a result that is None / empty / of one / of two entries (expected refuse, refuse, accept, accept): an empty result file is accepted, or a good one refused" % (txt, got),
-                                           construct="empty-check-form"), "_load empty check")
-                        good = None
-        if good is None:
-            pass
-        elif good:
-            rr.ok("_load: returning `%s` is dominated by a None/empty check whose failing branch raises" % norm(rn.ast.value))
-        else:
-            rr.bad(ctx.finding(rid, ld, rn.ast, "the loaded result is returned without the None / empty check that refuses a result file containing no data",
-                               construct="no-empty-check"), "_load validates result")
+                for b_, l in g.succ[t.id]:
+                    if l in ("t", "f"):
+                        reach = g.reachable(start=b_)
+                        if g.exit.id not in reach and g.raise_exit.id in reach:
+                            txt = norm(t.ast)
+                            if "None" in txt and "len(" in txt:
+                                good = True
+            if good:
+                # ... and the check holds exactly for None and for empty results (evaluated on representatives)
+                for t in tests:
+                    txt = norm(t.ast)
+                    if "None" in txt and "len(" in txt:
+                        rname_ = sorted(rname & names_in(t.ast))[0]
+                        got = []
+                        for rep in (None, (), (1,), (1, 2)):
+                            def on_call(c_, ev_, st_, rep=rep):
+                                if norm(c_.func) == "len" and len(c_.args) == 1:
+                                    if rep is None:
+                                        raise TypeError("len(None)")
+                                    return len(ev_.ev(c_.args[0], st_))
+                                return NotImplemented
+                            try:
+                                got.append(bool(IntEval({rname_: rep}, on_call).ev(t.ast, {})))
+                            except TypeError:
+                                got.append("TypeError")
+                            except AnalysisError:
+                                got = None
+                                break
+                        if got is not None and got != [True, True, False, False]:
+                            rr.bad(ctx.finding(rid, fn, t.ast, "the refusal test `%s` answers %s for a result that is None / empty / of one / of two entries (expected refuse, refuse, accept, accept): an empty result file is accepted, or a good one refused" % (txt, got),
+                                               construct="empty-check-form"), "_load empty check")
+                            good = None
+            if good is None:
+                pass
+            elif good:
+                rr.ok("%s: returning `%s` is dominated by a None/empty check whose failing branch raises" % (fn.qualname, norm(rv)))
+            elif not isinstance(rv, (ast.Name, ast.Call)):
+                raise AnalysisError("idiom changed: %s returns `%s`; the analysis knows a returned name or a returned read" % (fn.qualname, norm(rv)[:60]))
+            else:
+                rr.bad(ctx.finding(rid, fn, rn.ast, "the loaded result is returned without the None / empty check that refuses a result file containing no data",
+                                   construct="no-empty-check"), "_load validates result")
+    validate(ld)
     # leftovers raise, exhaustion propagates
     reaper = prog.need_cls(CROP + ".Reaper")
     ex = reaper.methods.get("__exit__")
@@ -287,6 +305,34 @@ def load_errors_propagate_rule(ctx, rid):
                 rr.bad(ctx.finding(rid, call, c, "exhaustion of the loaded results (StopIteration) is caught in Reaper.__call__"), "exhaustion propagates")
             else:
                 rr.ok("Reaper.__call__: next(self.results) without default, exhaustion propagates")
+    # ... and through the sweep that calls the Reaper once per setting: a StopIteration raised by a function that builtin
+    # map() / filter() / itertools.starmap() applies is taken for the end of that iterator, whoever consumes it
+    CRM = "xyzpy.gen.combo_runner"
+    seqh = [f for f in prog.need_func(CRM + ".combo_runner_core").module.all_funcs if f.parent is None and f.cls is None and "fn" in f.params]
+    need(any(f.qualname == CRM + "._run_linear_sequential" for f in seqh), "anchor lost: the sequential run-linear helper")
+    n_sites = 0
+    for f in seqh:
+        ctx.touch(f)
+        carriers = {"fn"}
+        for nf in f.nested.values():
+            if any(isinstance(c, ast.Call) and isinstance(c.func, ast.Name) and c.func.id == "fn" for c in ast.walk(nf.node)):
+                if any(isinstance(h_, ast.ExceptHandler) for h_ in ast.walk(nf.node)):
+                    raise AnalysisError("idiom changed: %s calls the swept function inside a try statement of the closure `%s`; which exceptions leave it is not analysed" % (f.name, nf.name))
+                carriers.add(nf.name)
+        for c in ast.walk(f.node):
+            if isinstance(c, ast.Call) and isinstance(c.func, ast.Name) and c.func.id == "fn":
+                n_sites += 1
+            if not (isinstance(c, ast.Call) and c.args and (callee_name(ctx, f, c) in ("builtins.map", "builtins.filter", "itertools.starmap"))):
+                continue
+            a0 = c.args[0]
+            inner = isinstance(a0, ast.Lambda) and any(isinstance(x, ast.Call) and isinstance(x.func, ast.Name) and x.func.id == "fn" for x in ast.walk(a0))
+            part = isinstance(a0, ast.Call) and norm(a0.func).endswith("partial") and a0.args and isinstance(a0.args[0], ast.Name) and a0.args[0].id in carriers
+            if (isinstance(a0, ast.Name) and a0.id in carriers) or inner or part:
+                rr.bad(ctx.finding(rid, f, c, "`%s` applies the swept function inside an iterator: when that function is the Reaper and the loaded results run out, its StopIteration is taken for the end of the iteration, the sweep returns short and the reap completes (and deletes the crop) instead of raising" % norm(c)[:60],
+                                   construct="exhaustion-swallowed-by-map " + f.name), "%s: exhaustion propagates through the sweep" % f.name)
+    need(n_sites >= 1, "anchor lost: no call of `fn` in the run-linear helpers")
+    if not any("exhaustion-swallowed" in (getattr(x, "construct", "") or "") for x in rr.findings):
+        rr.ok("no run-linear helper applies the swept function through map() / filter() / starmap() (%d direct call sites)" % n_sites)
     return rr
 
 
@@ -382,6 +428,130 @@ def _merge_layers(expr, fi, depth=0):
     return None
 
 
+class _MergeVal:
+    """An abstract mapping: the ordered layers it was merged from (later wins) and the object it may BE
+    (alias) rather than a copy of."""
+
+    def __init__(self, layers, alias=None):
+        self.layers = list(layers)
+        self.alias = alias
+
+
+def _identity_like(fn):
+    """A one-argument repo function that returns its argument or a plain copy of it (prepare.dictify):
+    -> 'alias' when a path returns the argument itself, 'copy' when every return is dict(arg) / {} / dict(),
+    None when it is anything else."""
+    if fn is None or not hasattr(fn, "node") or len(fn.positional) != 1:
+        return None
+    par = fn.positional[0]
+    kinds = set()
+    for n in walk_shallow(fn.node):
+        if isinstance(n, ast.Return):
+            t = norm(n.value) if n.value is not None else "None"
+            if t == par:
+                kinds.add("alias")
+            elif t in ("dict(%s)" % par, "{**%s}" % par, "dict()", "{}"):
+                kinds.add("copy")
+            else:
+                return None
+        elif isinstance(n, (ast.Assign, ast.AugAssign, ast.For, ast.While, ast.With, ast.Try)):
+            return None
+    return "alias" if "alias" in kinds else ("copy" if kinds else None)
+
+
+def _merge_value(ctx, expr, fi, env, effects, depth=0):
+    """Abstract value of a mapping expression in `fi` (env: local name -> _MergeVal), following same-class
+    helpers; mutations of a value that may be a stored / passed-in object are recorded in `effects`.
+    -> _MergeVal or None (unrecognised)."""
+    from ..util import single_def, callee_func
+    if depth > 6 or expr is None:
+        return None
+    e = expr
+    if isinstance(e, ast.Name):
+        if e.id in env:
+            return env[e.id]
+        if e.id in fi.params:
+            return _MergeVal([e.id], alias=e.id)
+        d = single_def(fi, e.id)
+        if d is not None:
+            return _merge_value(ctx, d[1], fi, env, effects, depth + 1)
+        return None
+    if isinstance(e, ast.Attribute) and norm(e.value) == "self":
+        return _MergeVal([norm(e)], alias=norm(e))
+    if isinstance(e, ast.Dict) and all(k is None for k in e.keys):
+        out = []
+        for v in e.values:
+            sub = _merge_value(ctx, v, fi, env, effects, depth + 1)
+            if sub is None:
+                return None
+            out += sub.layers
+        return _MergeVal(out)
+    if isinstance(e, ast.BinOp) and isinstance(e.op, ast.BitOr):
+        a_ = _merge_value(ctx, e.left, fi, env, effects, depth + 1)
+        b_ = _merge_value(ctx, e.right, fi, env, effects, depth + 1)
+        return _MergeVal(a_.layers + b_.layers) if a_ is not None and b_ is not None else None
+    if isinstance(e, ast.Call):
+        if isinstance(e.func, ast.Name) and e.func.id == "dict" and len(e.args) <= 1 and not e.keywords:
+            if not e.args:
+                return _MergeVal([])
+            sub = _merge_value(ctx, e.args[0], fi, env, effects, depth + 1)
+            return _MergeVal(sub.layers) if sub is not None else None
+        if isinstance(e.func, ast.Attribute) and e.func.attr == "copy" and not e.args:
+            sub = _merge_value(ctx, e.func.value, fi, env, effects, depth + 1)
+            return _MergeVal(sub.layers) if sub is not None else None
+        cf = callee_func(ctx, fi, e)
+        if cf is None or not hasattr(cf, "node"):
+            return None
+        kind = _identity_like(cf)
+        if kind is not None and len(e.args) == 1 and not e.keywords:
+            sub = _merge_value(ctx, e.args[0], fi, env, effects, depth + 1)
+            if sub is None:
+                return None
+            return _MergeVal(sub.layers, alias=sub.alias if kind == "alias" else None)
+        if isinstance(e.func, ast.Attribute) and norm(e.func.value) == "self" and cf.cls is not None and fi.cls is not None:
+            # a helper method: straight-line interpretation with the arguments bound
+            pars = [p_ for p_ in cf.positional if p_ != "self"]
+            if any(isinstance(a_, ast.Starred) for a_ in e.args) or any(k.arg is None for k in e.keywords) or len(e.args) > len(pars):
+                return None
+            env2 = {}
+            for p_, a_ in list(zip(pars, e.args)) + [(k.arg, k.value) for k in e.keywords]:
+                v_ = _merge_value(ctx, a_, fi, env, effects, depth + 1)
+                if v_ is None:
+                    return None
+                env2[p_] = v_
+            for p_ in pars:
+                if p_ not in env2:
+                    dflt = cf.defaults().get(p_)
+                    if dflt is not None and norm(dflt) in ("()", "None", "{}"):
+                        env2[p_] = _MergeVal([])
+                    else:
+                        return None
+            ctx.touch(cf)
+            for st in cf.node.body:
+                if isinstance(st, ast.Expr) and isinstance(st.value, ast.Constant):
+                    continue
+                if isinstance(st, ast.Assign) and len(st.targets) == 1 and isinstance(st.targets[0], ast.Name):
+                    v_ = _merge_value(ctx, st.value, cf, env2, effects, depth + 1)
+                    if v_ is None:
+                        return None
+                    env2[st.targets[0].id] = v_
+                elif isinstance(st, ast.Expr) and isinstance(st.value, ast.Call) and isinstance(st.value.func, ast.Attribute) and st.value.func.attr == "update" \
+                        and isinstance(st.value.func.value, ast.Name) and st.value.func.value.id in env2 and len(st.value.args) == 1 and not st.value.keywords:
+                    tgt = env2[st.value.func.value.id]
+                    add = _merge_value(ctx, st.value.args[0], cf, env2, effects, depth + 1)
+                    if add is None:
+                        return None
+                    if tgt.alias is not None:
+                        effects.append((cf, st, tgt.alias))
+                    tgt.layers = tgt.layers + add.layers
+                elif isinstance(st, ast.Return) and st.value is not None:
+                    return _merge_value(ctx, st.value, cf, env2, effects, depth + 1)
+                else:
+                    return None
+            return None
+    return None
+
+
 def precedence_rule(ctx, rid):
     """Explicit constants > runner constants > runner resources, the same at
     sow time (Crop.parse_constants) as in a direct run
@@ -453,8 +623,18 @@ def precedence_rule(ctx, rid):
             if nm in ("xyzpy.gen.combo_runner.combo_runner_to_ds", "xyzpy.gen.case_runner.case_runner_to_ds"):
                 cexp = arg(c, None, "constants")
                 rexp = arg(c, None, "resources")
-                ml = _merge_layers(cexp, m) if cexp is not None else None
+                effects = []
+                mv = _merge_value(ctx, cexp, m, {}, effects) if cexp is not None else None
+                ml = mv.layers if mv is not None else None
                 found = True
+                stored_hit = [(f_, st_, al_) for f_, st_, al_ in effects if al_.startswith("self.")]
+                if stored_hit:
+                    f_, st_, al_ = stored_hit[0]
+                    rr.bad(ctx.finding(rid, f_, st_, "`%s` updates an object that may be `%s` itself (the value it was taken from is returned unchanged when it already is a dict): the constants given for this run only are written into the runner and supplied to every later run" % (norm(st_)[:60], al_),
+                                       construct="runner-stored-constants-mutated " + mname), "runner %s stored constants" % mname)
+                    continue
+                if effects:
+                    raise AnalysisError("idiom changed: Runner.%s builds its constants by updating `%s` in place" % (mname, effects[0][2]))
                 if cexp is None and rexp is None and any(k.arg is None for k in c.keywords):
                     raise AnalysisError("idiom changed: Runner.%s hands constants / resources to the runner through a keyword mapping (`**%s`)" % (mname, ", **".join(norm(k.value) for k in c.keywords if k.arg is None)))
                 mln = [x.replace("dict(constants)", "constants") for x in ml] if ml is not None else None
